@@ -417,12 +417,28 @@ class Visitor(ast.NodeVisitor):
             self.recomputed_values[node] = joined_str
             return joined_str
 
+    def visit_Starred(self, node: ast.Starred) -> Any:
+        """Re-compute the starred value; it is up to the enclosing call or display to unpack it."""
+        return self.visit(node=node.value)
+
+    def _visit_elements(self, elts: List[ast.expr]) -> List[Any]:
+        """Re-compute the elements of a list, tuple or set display and unpack the starred ones."""
+        recomputed_elts = []  # type: List[Any]
+        for elt in elts:
+            recomputed_elt = self.visit(node=elt)
+            if isinstance(elt, ast.Starred) and recomputed_elt is not PLACEHOLDER:
+                recomputed_elts.extend(recomputed_elt)
+            else:
+                recomputed_elts.append(recomputed_elt)
+
+        return recomputed_elts
+
     def visit_List(self, node: ast.List) -> Union[List[Any], Placeholder]:
         """Visit the elements and assemble the results into a list."""
         if isinstance(node.ctx, ast.Store):
             raise NotImplementedError("Can not compute the value of a Store on a list")
 
-        recomputed_elts = [self.visit(node=elt) for elt in node.elts]
+        recomputed_elts = self._visit_elements(elts=node.elts)
 
         # Please see "NOTE ABOUT PLACEHOLDERS AND RE-COMPUTATION"
         if any(recomputed_elt is PLACEHOLDER for recomputed_elt in recomputed_elts):
@@ -436,7 +452,7 @@ class Visitor(ast.NodeVisitor):
         if isinstance(node.ctx, ast.Store):
             raise NotImplementedError("Can not compute the value of a Store on a tuple")
 
-        recomputed_elts = tuple(self.visit(node=elt) for elt in node.elts)
+        recomputed_elts = tuple(self._visit_elements(elts=node.elts))
         # Please see "NOTE ABOUT PLACEHOLDERS AND RE-COMPUTATION"
         if any(recomputed_elt is PLACEHOLDER for recomputed_elt in recomputed_elts):
             return PLACEHOLDER
@@ -446,7 +462,7 @@ class Visitor(ast.NodeVisitor):
 
     def visit_Set(self, node: ast.Set) -> Union[Set[Any], Placeholder]:
         """Visit the elements and assemble the results into a set."""
-        recomputed_elts = set(self.visit(node=elt) for elt in node.elts)
+        recomputed_elts = set(self._visit_elements(elts=node.elts))
         # Please see "NOTE ABOUT PLACEHOLDERS AND RE-COMPUTATION"
         if any(recomputed_elt is PLACEHOLDER for recomputed_elt in recomputed_elts):
             return PLACEHOLDER
@@ -734,7 +750,13 @@ class Visitor(ast.NodeVisitor):
             args = []  # type: List[Any]
             for arg_node in node.args:
                 if isinstance(arg_node, ast.Starred):
-                    args.extend(self.visit(node=arg_node))
+                    starred = self.visit(node=arg_node)
+
+                    # Please see "NOTE ABOUT PLACEHOLDERS AND RE-COMPUTATION"
+                    if starred is PLACEHOLDER:
+                        args.append(PLACEHOLDER)
+                    else:
+                        args.extend(starred)
                 else:
                     args.append(self.visit(node=arg_node))
 
